@@ -53,7 +53,7 @@ VDrop == /\ Is("v_drop")
          /\ UNCHANGED <<wl, vid, loc, taken, provider, cut, lz>>
 HEnd == /\ Is("hd_end")
         /\ bad' = FirstOf(<<
-             <<~released /\ Live = {} /\ ~cut, "the stored value was not released although every handle on every endpoint is gone">> >>)
+             <<~released /\ Live = {}, "the stored value was not released although every handle on every endpoint is gone">> >>)
         /\ UNCHANGED <<wl, vid, loc, taken, released, provider, cut, lz>>
 \* ---- lazy values and blobs
 LNew == /\ Is("lz_new") /\ UNCHANGED <<wl, vid, loc, taken, released, provider, cut, lz, bad>>
